@@ -1,12 +1,183 @@
 package dsim
 
-import "testing"
+// C05 profile "actors": SAVE, REWRITEAOF, FLUSHDB/FLUSHALL, SWAPDB and the background expiry sampler
+// run next to readers and writers; every keyspace step, state-copy step and ticker wake-up is a
+// controller decision. Oracles: no panic, no deadlock (watchdog), no endless busy-wait, every command
+// completes, and the final dataset holds no ghost entry (a key without a value).
+
+import (
+	"fmt"
+	"os"
+	"path/filepath"
+	"strings"
+	"testing"
+	"time"
+)
 
 func genC05Actors(r *Rng, tier string, p *Plan) *Plan {
 	p.Profile = "actors"
+	p.SKnobs["policy"] = Pick(r, []string{"noeviction", "allkeys-lfu", "volatile-lru", "allkeys-random"})
+	g := &GenCfg{Keys: []string{"k1", "k2", "k3"}, NoRandom: true, NowMs: 946684800000}
+	p.Init = g.SeedOps(r, r.Range(0, 5))
+	nclients := r.Range(2, 4)
+	p.Knobs["clients"] = int64(nclients)
+	actors := [][]string{{"SAVE"}, {"REWRITEAOF"}, {"FLUSHDB"}, {"FLUSHALL"}, {"SWAPDB", "0", "1"}, {"SAVE"}, {"REWRITEAOF"}}
+	for c := 0; c < nclients; c++ {
+		for j, n := 0, r.Range(1, 4); j < n; j++ {
+			if r.Chance(0.3) {
+				p.Ops = append(p.Ops, Op{C: c, Args: Pick(r, actors)})
+			} else {
+				p.Ops = append(p.Ops, Op{C: c, Args: g.Cmd(r)})
+			}
+		}
+	}
+	p.Knobs["advances"] = int64(r.Range(0, 6))
+	p.Dice = drawDice(r, 256)
 	return p
 }
 
 func runC05Actors(t *testing.T, p *Plan) *Outcome {
-	return &Outcome{Trivial: true}
+	o := &Outcome{}
+	root := filepath.Join(scratchDir(), fmt.Sprintf("r%d", runCounter.Add(1)))
+	_ = os.MkdirAll(root, 0o755)
+	defer os.RemoveAll(root)
+	fail := func(sig, detail string) {
+		if o.Sig == "" {
+			o.Sig, o.Detail = "C05/"+sig, detail
+		}
+	}
+	var names []string
+	br := RunBubble(t, func() {
+		s := NewSim()
+		s.logOn = true
+		s.install()
+		defer s.uninstall()
+		dice := p.NewDice()
+		cfg := BaseConfig
+		cfg.DataDir = root
+		cfg.AOFSyncStrategy = "no"
+		cfg.EvictionPolicy = p.SK("policy")
+		cfg.EvictionInterval = 100 * time.Millisecond
+		inst, err := s.Boot(1, cfg)
+		if err != nil {
+			fail("boot-failed", fmt.Sprint(err))
+			return
+		}
+		seed := s.NewEmbeddedClient(inst, "seed")
+		for _, op := range p.Init {
+			seed.DoSync(op.Args...)
+		}
+		nclients := int(p.K("clients"))
+		cs := make([]*Client, nclients)
+		perClient := make([][]int, nclients)
+		for i := range cs {
+			if i == 0 {
+				cs[i] = s.NewTCPClient(inst, "t0")
+			} else {
+				cs[i] = s.NewEmbeddedClient(inst, fmt.Sprintf("e%d", i))
+			}
+		}
+		for i, op := range p.Ops {
+			perClient[op.C%nclients] = append(perClient[op.C%nclients], i)
+			names = append(names, strings.ToUpper(op.Args[0]))
+		}
+		done := make([]bool, len(p.Ops))
+		results := make([]string, len(p.Ops))
+		next := make([]int, nclients)
+		startNext := func(c int) {
+			if next[c] >= len(perClient[c]) {
+				return
+			}
+			i := perClient[c][next[c]]
+			next[c]++
+			cs[c].Start(p.Ops[i].Args, func(r Result) {
+				results[i] = r.String()
+				if r.Panic != "" {
+					fail("panic/"+topRepoFrame(r.Panic), fmt.Sprintf("%q: %s", p.Ops[i].Args, r.Panic))
+				}
+				done[i] = true
+			})
+		}
+		for c := 0; c < nclients; c++ {
+			startNext(c)
+		}
+		advances := int(p.K("advances"))
+		for step := 0; step < 6000 && o.Sig == ""; step++ {
+			for c := 0; c < nclients; c++ {
+				if next[c] > 0 && next[c] < len(perClient[c]) && done[perClient[c][next[c]-1]] {
+					startNext(c)
+				}
+			}
+			parked := s.ParkedTasks()
+			n := len(parked)
+			if advances > 0 {
+				n++
+			}
+			if n == 0 {
+				break
+			}
+			k := dice.Next(n)
+			if k == len(parked) {
+				advances--
+				s.noteChoice(n, "advance")
+				s.Advance(100 * time.Millisecond)
+				continue
+			}
+			tk := parked[k]
+			s.noteChoice(n, tk.Site)
+			if strings.HasPrefix(tk.Site, "spin:") && tk.Spins > 400 {
+				others := 0
+				for _, x := range parked {
+					if !strings.HasPrefix(x.Site, "spin:") {
+						others++
+					}
+				}
+				if others == 0 {
+					fail("livelock/"+tk.Site, fmt.Sprintf("only busy-waiting tasks are left (%d), %s has spun %d times: the flag it waits for is never cleared", len(parked), tk.Site, tk.Spins))
+					break
+				}
+			}
+			s.Release(tk)
+		}
+		if o.Sig == "" {
+			if !s.DrainAll(3000) {
+				p2 := s.ParkedTasks()
+				site := "?"
+				if len(p2) > 0 {
+					site = p2[0].Site
+				}
+				fail("livelock/"+site, "the system does not quiesce after the workload ended")
+			}
+		}
+		for i := range p.Ops {
+			if !done[i] && o.Sig == "" {
+				fail("never-completed/"+strings.ToUpper(p.Ops[i].Args[0]), fmt.Sprintf("command %q was never answered", p.Ops[i].Args))
+			}
+		}
+		if cs[0].SrvPanic != "" {
+			fail("panic/"+topRepoFrame(cs[0].SrvPanic), cs[0].SrvPanic)
+		}
+		if o.Sig == "" {
+			for db, data := range inst.DB.VerifDump().DBs {
+				for k, e := range data {
+					if e.Kind == "nil" || strings.HasPrefix(e.Kind, "other") {
+						fail("corrupt-value/"+e.Kind, fmt.Sprintf("key %d/%s holds a %s value after the run", db, k, e.Kind))
+					}
+				}
+			}
+		}
+		o.Stats = s.Stats
+		o.Sched = s.schedHash
+		o.Log = s.Log
+		o.StateH = append(o.StateH, hashString(DataString(inst.DB.VerifDump(), false)))
+		s.KillInstance(1)
+	})
+	if br.panicVal != nil && o.Sig == "" {
+		o.Sig = "C05/panic/" + topRepoFrame(br.stack)
+		o.Detail = fmt.Sprintf("%v\n%s", br.panicVal, br.stack)
+	}
+	o.Trivial = o.Stats.MultiChoice == 0
+	o.Class = "actors|" + strings.Join(names, "+")
+	o.Sample = map[string]any{"profile": "actors", "commands": names}
+	return o
 }
